@@ -2,6 +2,7 @@ package ast
 
 import (
 	"fmt"
+	"strings"
 
 	"github.com/smarthome-go/homescript/v3/homescript/errors"
 	"github.com/smarthome-go/homescript/v3/homescript/parser/ast"
@@ -43,4 +44,13 @@ type AnalyzedImplBlock struct {
 	Span           errors.Span
 	// Capabilities which exist on the singleton after consideration of default capabilities.
 	FinalCapabilities map[string]TemplateCapabilityWithSpan
+}
+
+func (self AnalyzedImplBlock) String() string {
+	methods := make([]string, 0)
+	for _, method := range self.Methods {
+		methods = append(methods, strings.ReplaceAll(method.String(), "\n", "\n    "))
+	}
+
+	return fmt.Sprintf("impl %s for %s {\n    %s\n}", self.UsingTemplate, self.SingletonIdent, strings.Join(methods, "\n\n    "))
 }
